@@ -175,6 +175,7 @@ def run(ctx):
 
     # ------------------------------------------------------------------ R07.3
     r = ctx.rule("R07.3", "serialisation order of a mutated token: content_before, then the token itself or (if removed) its replacement, then content_after; replace() removes the token and clears an earlier replacement", "E-AST", floor=5)
+    sm.clause_finish_order(r, mir)
     for owner in ("StartTag", "EndTag", "Comment", "TextChunk"):
         fs = [f for f in idx.fns if f.name == "into_bytes" and f.owner == owner and f.trait == "Serialize"]
         key = owner + "::into_bytes"
